@@ -361,7 +361,7 @@ def canvas_correspondence(ctx, drawings, noise):
 
 # ------------------------------------------------------------------ merged drawings: coq/C19/CanvasMerged.v, CanvasHeadersDraw.v, CanvasColumnsDraw.v against the code (section owner: ext-merged)
 MERGED_HEADER = ('From Coq Require Import List NArith Bool Arith.\n'
-                 'From DV Require Import C19.Model C19.Canvas C19.CanvasDraw C19.CanvasSweep C19.CanvasMerged C19.CanvasHeadersDraw C19.CanvasColumnsDraw C19.CanvasHeadersSweep.\n'
+                 'From DV Require Import C19.Model C19.Canvas C19.CanvasDraw C19.CanvasSweep C19.CanvasMerged C19.CanvasHeadersDraw C19.CanvasColumnsDraw C19.CanvasBoxDraw C19.CanvasHeadersSweep.\n'
                  'Import ListNotations.\n')
 
 
@@ -386,10 +386,11 @@ def mdraw_term(g, cv):
 
 
 def merged_drawings(ctx, n):
-    """Drawings of c19draw WITHOUT information item name (both orientations, merged and multi-line cells, all option combinations) as
-    merged drawings of coq/C19/CanvasMerged.v: the drawing must be well formed (wf_mdraw), the Gallina `drawm` must reproduce the
-    drawn text character by character, and the plane canvas.rs builds from the text (dv canvas) must be `mplane` - numbers, rectangles,
-    texts, double-line cells (the theorem C19_draw_roundtrip_merged says canvas_cplane (drawm d) = mplane d for every wf_mdraw d)."""
+    """Drawings of c19draw (both orientations, merged and multi-line cells, all option combinations; half of them with an information
+    item name box) as merged drawings of coq/C19/CanvasMerged.v (+ box of coq/C19/CanvasBoxDraw.v): the drawing must be well formed
+    (wf_mdraw, wf_ibox), the Gallina `drawm` / `drawb` must reproduce the drawn text character by character, and the name and plane
+    canvas.rs builds from the text (dv canvas) must be `mplane` / (`bname`, `bplane`) - numbers, rectangles, texts, double-line cells
+    (theorems C19_draw_roundtrip_merged / C19_draw_roundtrip_box: canvas_cplane of the drawn text = that plane for every well-formed drawing)."""
     rng = ctx.rng
     grids = {}
     orig = c19draw.Grid.render
@@ -403,28 +404,36 @@ def merged_drawings(ctx, n):
     try:
         while len(items) < n:
             t, opts = gen_case(rng)
-            opts['info'] = None
+            opts['info'] = rng.choice([None, None, 'Order options', 'dec', 'Sell\noptions', 'x'])
             spec = make_spec(rng, t, opts)
             text, exp = c19draw.draw(spec, rng)
             if text is None:
                 continue
             g, cv = grids['g'], grids['cv']
-            items.append((mdraw_term(g, cv), ''.join(''.join(r) + '\n' for r in cv), text, opts['orientation']))
+            if opts['info'] is None:
+                items.append((mdraw_term(g, cv), None, ''.join(''.join(r) + '\n' for r in cv), text, opts['orientation']))
+            else:
+                lines = [l[2:] for l in text.split('\n') if l.strip()]
+                xr = lines[0].index('┐')
+                m = next(k for k in range(1, len(lines)) if lines[k][0] == '├') - 1
+                box = '(Build_ibox [%s] %d)' % ('; '.join(coq_points(lines[k][1:xr]) for k in range(1, m + 1)), xr)
+                items.append((mdraw_term(g, cv), box, ''.join(l + '\n' for l in lines), text, opts['orientation']))
     finally:
         c19draw.Grid.render = orig
-    impl = ctx.run_impl('canvas', [{'text': text} for (_, _, text, _) in items], shards=8)
-    terms = ['let d := %s in (wf_mdraw d, all2 N.eqb (drawm d) %s, outcome_eqb (Ok (None, mplane d)) %s)' % (tm, coq_points(plain), coq_outcome(r))
-             for (tm, plain, _, _), r in zip(items, impl)]
+    impl = ctx.run_impl('canvas', [{'text': text} for (_, _, _, text, _) in items], shards=8)
+    terms = [('let d := %s in (wf_mdraw d, all2 N.eqb (drawm d) %s, outcome_eqb (Ok (None, mplane d)) %s)' % (tm, coq_points(plain), coq_outcome(r))) if box is None else
+             ('let d := %s in let b := %s in (wf_mdraw d && wf_ibox d b, all2 N.eqb (drawb d b) %s, outcome_eqb (Ok (Some (bname b), bplane d b)) %s)' % (tm, box, coq_points(plain), coq_outcome(r)))
+             for (tm, box, plain, _, _), r in zip(items, impl)]
     res = ctx.run_model(MERGED_HEADER, terms, shard_size=max(1, n // 16 + 1), tag='mg')
     bad = 0
-    for (tm, plain, text, o), r, im in zip(items, res, impl):
+    for (tm, box, plain, text, o), r, im in zip(items, res, impl):
         ctx.evaluations += 1
         ctx.corr_checked += 1
-        ctx.nontrivial.add(('merged', o))
+        ctx.nontrivial.add(('merged', o, box is not None))
         if list(r) != [True, True, True]:
             bad += 1
-            what = 'wf_mdraw fails' if r[0] is not True else 'drawm differs from the drawn text' if r[1] is not True else 'canvas.rs plane differs from mplane'
-            ctx.corr_broken('canvas.rs / c19draw vs coq/C19/CanvasMerged.v (%s, %s)' % (o, what), {'text': text}, im if 'plane' not in im else 'plane', list(r))
+            what = 'wf_mdraw / wf_ibox fails' if r[0] is not True else 'drawm / drawb differs from the drawn text' if r[1] is not True else 'canvas.rs name / plane differs from mplane / bplane'
+            ctx.corr_broken('canvas.rs / c19draw vs coq/C19/CanvasMerged.v, CanvasBoxDraw.v (%s, %s, %s)' % (o, 'with box' if box else 'no box', what), {'text': text}, im if 'plane' not in im else 'plane', list(r))
     return bad
 
 
@@ -508,32 +517,46 @@ def gen_htable(rng, columns):
                '; '.join('(%s, %s, %s, %s)' % (blk(n), lst(i), lst(o), lst(a)) for n, i, o, a in rules),
                '; '.join('(%d, %d, %d)' % m for m in merges)))
     J = lambda b: '\n'.join(b)
-    exp = {'hit_policy': 'U', 'orientation': 'column' if columns else 'row',
+    box, bname = None, None
+    if rng.random() < 0.4:
+        dbl = {X[hdr]} if columns else ({X[oc0], X[ac0]} if na else {X[oc0]})
+        cands = [x for x in range(3, X[-1] + 1) if x not in dbl]
+        xr = rng.choice(cands)
+        nm = ['N' + ''.join(rng.choice(alpha[:7]) for _ in range(rng.randint(0, xr - 2)))] + ([''] if rng.random() < 0.3 else [])
+        nm = [l.ljust(xr - 1) for l in nm]
+        box = '(Build_ibox [%s] %d)' % ('; '.join(coq_points(l) for l in nm), xr)
+        bname = J(nm)
+    exp = {'hit_policy': 'U', 'orientation': 'column' if columns else 'row', 'information_item_name': bname,
            'output_label': J(lab) if multi and lab is not None else (J(outs[0][0]) if not multi else None),
            'inputs': [[J(a), J(b) if values else None] for a, b in ins],
            'outputs': [[J(a) if multi else None, J(b) if values else None, None] for a, b in outs],
            'annotations': [J(a) for a in anns],
            'rules': [[[J(x) for x in i], [J(x) for x in o], [J(x) for x in a]] for n, i, o, a in rules]}
-    return term, exp, (hdr, bool(merges))
+    return term, exp, (hdr, bool(merges), box is not None), box
 
 
 def header_tables(ctx, n):
     """Random tables of coq/C19/CanvasHeadersDraw.v (`htable`: 1..3 header lines, output label over the output columns, allowed values,
-    multi-line cells, merged input entries) drawn by the Gallina functions as rules-as-rows (header_drawing) and rules-as-columns
-    (column_drawing) text: the drawing must be well formed (wf_htable / wf_ctable: the hypothesis of C19_text_to_table_headers /
+    multi-line cells, merged input entries; 40 % with an information item name box at a random place of the top border) drawn by the
+    Gallina functions as rules-as-rows (header_drawing) and rules-as-columns (column_drawing) text (drawm / drawb): the drawing must be well formed (wf_htable / wf_ctable: the hypothesis of C19_text_to_table_headers /
     C19_text_to_table_columns), the Coq chain text -> plane -> table must give the fields of the table, and the REAL recogniser on
     the same text must report exactly the drawn orientation, hit policy and fields."""
     rng = ctx.rng
     cases = [gen_htable(rng, k % 2 == 1) for k in range(n)]
-    terms = ['let s := %s in (%s s, %s s, drawm (%s s))' % (term, 'wf_ctable' if exp['orientation'] == 'column' else 'wf_htable',
-                                                          'ctable_ok' if exp['orientation'] == 'column' else 'htable_ok',
-                                                          'column_drawing' if exp['orientation'] == 'column' else 'header_drawing')
-             for term, exp, _ in cases]
+    terms = []
+    for term, exp, _, box in cases:
+        col = exp['orientation'] == 'column'
+        wf, ok, dr = ('wf_ctable', 'ctable_ok', 'column_drawing') if col else ('wf_htable', 'htable_ok', 'header_drawing')
+        if box is None:
+            terms.append('let s := %s in (%s s, %s s, drawm (%s s))' % (term, wf, ok, dr))
+        else:
+            terms.append('let s := %s in let b := %s in (%s s && wf_ibox (%s s) b, %s s && btable_ok s (%s s) b %s && bplane_ok (%s s) b, drawb (%s s) b)'
+                         % (term, box, wf, dr, ok, dr, 'AsColumn' if col else 'AsRow', dr, dr))
     res = ctx.run_model(MERGED_HEADER, terms, shard_size=max(1, n // 16 + 1), tag='ht')
     texts = [''.join(chr(c) for c in r[2]) for r in res]
     impl = ctx.run_impl('recognize', [{'text': t, 'calls': []} for t in texts], shards=8)
     bad = 0
-    for (term, exp, shape), r, t, im in zip(cases, res, texts, impl):
+    for (term, exp, shape, box), r, t, im in zip(cases, res, texts, impl):
         ctx.evaluations += 1
         ctx.corr_checked += 1
         ctx.nontrivial.add(('htable', exp['orientation'], shape))
@@ -550,6 +573,58 @@ def header_tables(ctx, n):
                           % ('rejected' if 'ok' not in im else 'misread in ' + wrong[0], json.dumps(im.get('err') if 'ok' not in im else im['ok'].get(wrong[0]))[:200]),
                           {'text': t, 'drawn': exp}, impl=im.get('ok', im))
     return bad
+
+
+# ------------------------------------------------------------------ directed probes of the listed finding columns-first-text-is-marker
+ALL_MARKERS = ['U', 'A', 'P', 'F', 'R', 'O', 'C', 'C+', 'C<', 'C>', 'C#']
+
+
+def known_probes(ctx):
+    """The class of the known finding, on every run: well-formed rules-as-COLUMNS drawings (c19draw) whose first input expression is a
+    hit-policy marker text, and whose first output name / label is a number other than 1.  Exactly the listed outcome - rejected with
+    the specific error - is registered under the finding; a panic, a wrong table or another error is a VIOLATION; a correct
+    recognition is accepted (and counted: the finding would then be obsolete).  The same tables drawn as ROWS must be recognised."""
+    def spec(orientation, first_in, first_out, label):
+        return {'orientation': orientation, 'hp': 'U', 'info': None, 'label': label,
+                'inputs': [(first_in, None), ('Beta', None)], 'outputs': [(first_out, None), ('Other', None)],
+                'annotations': [], 'values': False,
+                'rules': [(['1', '2'], ['"a"', '"b"'], []), (['3', '4'], ['"c"', '"d"'], [])], 'merge': []}
+    probes = [('marker', m, 'expected left-below rule numbers placement', lambda o, m=m: spec(o, m, 'Alpha', None)) for m in ALL_MARKERS]
+    probes += [('number', n, 'invalid rule number', lambda o, n=n: spec(o, 'Age', n, None)) for n in ('2', '3', '17')]
+    probes += [('number', n, 'invalid rule number', lambda o, n=n: spec(o, 'Age', 'Alpha', n)) for n in ('2', '40')]
+    reqs, meta = [], []
+    for kind, txt, msg, mk in probes:
+        for o in ('column', 'row'):
+            text, exp = c19draw.draw(mk(o), None)
+            reqs.append({'text': text, 'calls': []})
+            meta.append((kind, txt, msg, o, text, exp))
+    res = ctx.run_impl('recognize', reqs)
+    stats = {'known': 0, 'recognised_as_columns': 0, 'rows_ok': 0}
+    for (kind, txt, msg, o, text, exp), r in zip(meta, res):
+        ctx.evaluations += 1
+        case = {'text': text, 'drawn': exp, 'class': 'first %s is %r, rules as %ss' % ('input expression' if kind == 'marker' else 'output name / label', txt, o)}
+        if 'panic' in r or 'crash' in r:
+            ctx.violation('the recogniser panicked on a well-formed drawing (%s): %s' % (case['class'], json.dumps(r)[:200]), case, impl=r)
+            continue
+        right = 'ok' in r and all(r['ok'].get(k) == v for k, v in exp.items())
+        if o == 'row':
+            if right:
+                stats['rows_ok'] += 1
+            else:
+                ctx.violation('a well-formed rules-as-rows drawing (%s) is %s' % (case['class'], 'misread' if 'ok' in r else 'rejected: %s' % r.get('err')), case, impl=r.get('ok', r))
+        elif right:
+            stats['recognised_as_columns'] += 1          # the deviation did not show: nothing to report
+        elif 'ok' in r:
+            ctx.violation('a well-formed rules-as-columns drawing (%s) is recognised as a DIFFERENT table' % case['class'], case, impl=r['ok'])
+        elif msg in str(r.get('err')):
+            ctx.nontrivial.add(('known-probe', kind, txt))
+            if ctx.known('columns-first-text-is-marker', case):
+                stats['known'] += 1
+            else:
+                ctx.violation('a well-formed rules-as-columns drawing (%s) is rejected: %s' % (case['class'], r.get('err')), case, impl=r)
+        else:
+            ctx.violation('a well-formed rules-as-columns drawing (%s) is rejected with an error outside the listed finding: %s' % (case['class'], r.get('err')), case, impl=r)
+    return stats
 
 def run(ctx):
     ctx.proof_gate()
@@ -655,12 +730,13 @@ def run(ctx):
     cv_regular_bad = regular_drawings(ctx, ctx.pick(60, 2000))
     cv_merged_bad = merged_drawings(ctx, ctx.pick(32, 1500))
     cv_htable_bad = header_tables(ctx, ctx.pick(32, 1500))
+    kp_stats = known_probes(ctx)
     return ctx.finish(
         rule='tables of the C03 fragment (1..5 inputs, 1..3 outputs, 0..2 annotations, 1..8 rules, all 11 hit-policy markers) drawn in both orientations with every '
              'combination of information item name / allowed values / output label / annotations, random cell widths, alignments, multi-line cells, merged input entries; '
              'every field compared with the drawing, evaluation compared with the XML equivalent on 4 tuples; then 8 single-character corruptions of each of 600 drawings, 2000 arbitrary texts '
              'and 4000 mangled drawings must give Ok or Err; non-trivial = distinct layout shapes',
-        extra_cov={'exhaustive': False, 'drawings': len(cases), 'distribution': hist, 'noise_outcomes': outcome, 'canvas_model': dict(cv_stats, differ=cv_differ, regular_drawings_differ=cv_regular_bad, merged_drawings_differ=cv_merged_bad, header_tables_differ=cv_htable_bad, seconds=round(time.time() - cv_t0, 1))},
+        extra_cov={'exhaustive': False, 'drawings': len(cases), 'distribution': hist, 'noise_outcomes': outcome, 'canvas_model': dict(cv_stats, differ=cv_differ, regular_drawings_differ=cv_regular_bad, merged_drawings_differ=cv_merged_bad, header_tables_differ=cv_htable_bad, known_finding_probes=kp_stats, seconds=round(time.time() - cv_t0, 1))},
         assumptions=['cell texts contain no box-drawing characters', 'allowed values are drawn for all clauses or for none (the text format has one values line)',
                      'in a rules-as-columns table the first input expression is not a hit-policy marker and output names are not numbers (the recogniser would take them for the marker / rule numbers)'],
         trusted=['dv recognize (dmntk_recognizer::build, Recognizer::recognize, build_decision_table_evaluator)', 'dv canvas (dmntk_recognizer::scan, Canvas::plane; cells read through Plane::cell / region_number / region_text and the Debug text of the rectangle)', 'props/c19draw.py (the drawing conventions follow /repo/examples)'])
@@ -689,7 +765,7 @@ def replay(ctx, path):
 
 
 MANIFEST = dict(
-    technique='Coq model of the plane-level recogniser with unbounded round-trip theorems and of the characters -> plane scan (canvas.rs) with a totality theorem for every text and text -> plane / text -> table theorems for every regular drawing, plus correspondence on drawn Unicode text (drawing -> recogniser -> fields, plane, orientation, evaluation vs DMN XML) and corruption/arbitrary-text robustness runs',
+    technique='Coq model of the plane-level recogniser with unbounded round-trip theorems and of the characters -> plane scan (canvas.rs) with a totality theorem for every text and text -> plane / text -> table theorems for every well-formed drawing (regular, merged cells, several header lines, rules as columns, information item name box), plus correspondence on drawn Unicode text (drawing -> recogniser -> fields, plane, orientation, evaluation vs DMN XML) and corruption/arbitrary-text robustness runs',
     text='coq/Props/C19.v (closed under the global context): for EVERY well-shaped table - any numbers of inputs, outputs, annotations, rules, any texts, with/without output label and allowed values - '
          'recognize_horizontal (layout_h t) = fields_of t (C19_plane_roundtrip_h); with the marker / rule-number column the whole plane of a rules-as-rows drawing is read back including orientation, hit policy and rule count '
          '(C19_plane_roundtrip_rows, abstract text parsers); pivot is an involution on rectangular planes and a rules-as-columns plane normalises to the same plane (C19_pivot_involutive, C19_columns_normalise); '
@@ -707,9 +783,18 @@ MANIFEST = dict(
          'canvas_cplane (draw d) = Ok (None, expected_plane d) (C19_draw_roundtrip_regular, coq/C19/CanvasAssembly.v); composed with the plane-level round trip through an erasure of region names (C19_recognize_plane_names_erased: with one header line no name is compared) '
          'it gives text -> table end to end for EVERY rules-as-rows table drawn in the regular style with one header line, any sizes / widths / plain texts, any text parsers that read the drawn hit-policy and rule-number cells (C19_text_to_table_regular, coq/C19/CanvasTable.v). '
          'TOTALITY: canvas_cplane text is never Panic for EVERY text (C19_canvas_total, coq/C19/CanvasTotal.v: the layers are rectangles, every point a search returns and every text area of a closed rectangle is inside), also for any rectangular grid given to the passes (C19_canvas_total_grid). '
-         'The 81-shape vm_compute sweeps of coq/C19/CanvasSweep.v are subsumed and kept as an independent computation (C19_canvas_nonvacuous).',
+         'The 81-shape vm_compute sweeps of coq/C19/CanvasSweep.v are subsumed and kept as an independent computation (C19_canvas_nonvacuous). '
+         'MERGED CELLS (coq/C19/CanvasMerged.v): a merged drawing is a grid of any column widths and line heights tiled by rectangular merged cells with text blocks, double lines in front of / above any two columns / lines; for EVERY well-formed one '
+         'the passes of scan succeed (GRID = the full grid: make_grid adds the missing separator pieces) and canvas_cplane (drawm d) = Ok (None, mplane d) (C19_canvas_scan_merged, C19_canvas_cells_merged, C19_draw_roundtrip_merged). '
+         'The recogniser compares region names only between a header cell and the cell below it, so planes with the same cells up to names and the same partition of the header lines are recognised alike (C19_recognize_plane_same_partition, ..._columns, C19_recognize_plane_renamed). '
+         'TEXT -> TABLE end to end for EVERY rules-as-rows table with 1..3 header lines (output label over all output columns, allowed values, cells spanning header lines, multi-line cells, merged input entries: C19_text_to_table_headers), '
+         'for EVERY rules-as-columns table (C19_text_to_table_columns, hypotheses first_input_not_marker / first_output_not_number as at the plane level) and for both with an INFORMATION ITEM NAME box anywhere on the top border '
+         '(C19_canvas_scan_box, C19_draw_roundtrip_box: name = the drawn name, plane = the table plane moved down with region numbers + 1; C19_text_to_table_headers_box, C19_text_to_table_columns_box). '
+         'Every run converts 32 c19draw drawings (half with box) to these Coq drawings and requires well-formedness, drawm / drawb = the drawn text character by character and the name / plane of canvas.rs = mplane / bplane, '
+         'and draws 32 random tables with the Gallina drawing functions (rows / columns, merged entries, boxes) which the real recogniser must read back exactly.',
     category='proof',
-    note='PARTIAL: the character grid -> plane step (canvas.rs) is modelled (coq/C19/Canvas.v), compared with the code cell by cell on every run, proved total (never Panic) for every text, and proved to read back the drawn plane / table for every REGULAR drawing (every cell its own frame, one line of text per cell, rules as rows with one header line for the table theorem); '
-         'drawings with merged or multi-line cells, an information item name, several header lines (label / allowed values) or rules as columns are covered at the character level by the correspondence only (their planes are covered by the plane-level theorems); '
+    note='the character grid -> plane step (canvas.rs) is modelled (coq/C19/Canvas.v), compared with the code cell by cell on every run, proved total (never Panic) for every text, and proved to read back the drawn plane and table for every well-formed drawing of the families: '
+         'regular, merged cells of any rectangular tiling (plane), rules as rows with 1..3 header lines / multi-line cells / merged input entries, rules as columns, each with or without information item name box (table). PARTIAL only in: '
+         'merged input entries in a rules-as-columns drawing and the drawing variant that splits the hit-policy / annotation cells at the values line are covered by the plane theorem C19_draw_roundtrip_merged and the correspondence, not by a table theorem; well-formedness of a drawing is a boolean hypothesis (computed for the examples and for every drawing of a run); '
          'totality is about the Panic points of the model, which the correspondence ties to the panics of canvas.rs; a rules-as-columns drawing whose first input expression is itself a marker text (U, A, P, F, R, O, C, C+ ...) or whose first output label/name is a number other than 1 '
          'is rejected with an error by the code and by the model (hypotheses of C19_plane_roundtrip_columns). One panic of the pinned commit was repaired (fix: non-rectangular plane).')
